@@ -372,7 +372,39 @@ func replayMain(t *testing.T) int {
 // attempt that still hangs costs the whole limit).
 func runIsolated(bin string, c *Case) *Outcome { return runIsolatedT(bin, c, 0) }
 
+// isolatedTrouble: the child neither finished nor failed in a way that can be attributed to the
+// system under test. Fatal for a worker or a replay; the driver, which only wanted a second
+// opinion on a hung worker's case, carries on (runIsolatedSoft).
+type isolatedTrouble struct{ msg string }
+
+func runIsolatedSoft(bin string, c *Case) (o *Outcome, ok bool) {
+	defer func() {
+		if r := recover(); r != nil {
+			if it, is := r.(isolatedTrouble); is {
+				fmt.Fprintln(os.Stderr, it.msg)
+				o, ok = nil, false
+				return
+			}
+			panic(r)
+		}
+	}()
+	return runIsolatedInner(bin, c, 0), true
+}
+
 func runIsolatedT(bin string, c *Case, override time.Duration) *Outcome {
+	defer func() {
+		if r := recover(); r != nil {
+			if it, is := r.(isolatedTrouble); is {
+				fmt.Fprintln(os.Stderr, it.msg)
+				os.Exit(2)
+			}
+			panic(r)
+		}
+	}()
+	return runIsolatedInner(bin, c, override)
+}
+
+func runIsolatedInner(bin string, c *Case, override time.Duration) *Outcome {
 	o := newOutcome()
 	dir := os.Getenv("VERIF_DATA")
 	if dir == "" {
@@ -444,8 +476,7 @@ func runIsolatedT(bin string, c *Case, override time.Duration) *Outcome {
 			o.violate(c.Prop, "stalled-on-lock", -1, 0, map[string]string{"frame": frame}, "the simulated broker stopped making progress: no goroutine is running and one waits for a lock in %s (child killed after %v)", frame, time.Duration(envInt("VERIF_CHILD_TIMEOUT_S", 90))*time.Second)
 			return o
 		}
-		fmt.Fprintf(os.Stderr, "isolated run hung without a running wasp frame; dump in %s\n%s\n", dir, tail(all, 3000))
-		os.Exit(2)
+		panic(isolatedTrouble{fmt.Sprintf("isolated run hung without a running wasp frame; dump in %s\n%s", dir, tail(all, 3000))})
 	}
 	sc := bufio.NewScanner(&stdout)
 	sc.Buffer(make([]byte, 1<<20), 1<<26)
@@ -487,9 +518,16 @@ func runIsolatedT(bin string, c *Case, override time.Duration) *Outcome {
 		all := stdout.String() + stderr.String()
 		if frame := panicFrame(all); frame != "" {
 			o.violate(c.Prop, "panic", -1, 0, map[string]string{"frame": frame}, "process died: %s", firstPanicLine(all))
+		} else if rrs := raceReportsFromText(all); c.Build == "lockstep" && len(rrs) > 0 && (rrs[0].a != "?" || rrs[0].b != "?") {
+			// the child did not get as far as its digest, but the race detector had already spoken
+			for _, rr := range rrs {
+				if rr.a == "?" && rr.b == "?" {
+					continue
+				}
+				o.violate(c.Prop, "data-race", -1, 0, map[string]string{"a": rr.a, "b": rr.b}, "the race detector reported unsynchronised conflicting accesses: %s <-> %s (the case did not run to completion)", rr.a, rr.b)
+			}
 		} else {
-			fmt.Fprintf(os.Stderr, "isolated run failed without a recognisable panic: %v\n%s\n", err, tail(all, 4000))
-			os.Exit(2)
+			panic(isolatedTrouble{fmt.Sprintf("isolated run failed without a recognisable panic: %v\n%s", err, tail(all, 4000))})
 		}
 	}
 	return o
@@ -710,9 +748,12 @@ func driverMain(t *testing.T) int {
 						var c Case
 						json.Unmarshal(cb, &c)
 						mu.Unlock()
-						o := runIsolated(bin, &c)
+						o, iok := runIsolatedSoft(bin, &c)
 						mu.Lock()
 						found := false
+						if !iok {
+							o = newOutcome()
+						}
 						for vi := range o.Violations {
 							v := o.Violations[vi]
 							found = true
